@@ -154,6 +154,7 @@ def analyse(steps, trailing_notes=()):
     last_recv = {}
     handshake_addr = None
     settled = False
+    cleanlink = False
     connects = {}
     accepts = {}
     pending_since_emit = {}
@@ -210,6 +211,8 @@ def analyse(steps, trailing_notes=()):
                 clock_mode = True
             elif t[0] == "handshake":
                 handshake_addr = t[1]
+            elif t[0] == "cleanlink":
+                cleanlink = True
             elif t[0] == "settled":
                 settled = True
             elif t[0] == "hostile":
@@ -560,6 +563,12 @@ def analyse(steps, trailing_notes=()):
         wrapped = any(s.op.startswith("w") and s.op not in ("wb",) for s in steps)
         if wrapped:
             continue  # deliveries through the wrapper are not individually observable
+        if cleanlink:
+            # on a link that loses, duplicates and reorders nothing (and with no channel closed) the peer accepts every packet and refuses none of
+            # its bunches: a NAK is wrong whatever the peer's own bookkeeping says (the acc lines are the peer's bookkeeping, not evidence)
+            for pid, ack, st in lst:
+                if not ack:
+                    V.append(Violation("C02", "nak-clean-link", "packet %d reported NAK on a link without faults" % pid, st))
         for pid, ack, st in lst:
             if ack and not acc.get(pid):
                 V.append(Violation("C02", "false-ack", "packet %d reported ACK but the peer %s" % (pid, "refused it" if pid in acc else "never accepted it"), st))
